@@ -208,24 +208,39 @@ class Walker:
         self.skip_calls = set()                             # ids of call nodes that were read inline (not sites themselves)
         self.frames = 0                                     # > 0 while walking a helper's body
         self.returned = FALSE                               # inside a helper read in statement position: the conditions under which it returned
+        self.before = set()                                 # (shape A, shape B): in some block, a statement doing A stands before a statement doing B
         self.sites: List[Tuple[str, ast.AST, tuple]] = []      # (shape, statement, formula)
         self.first_pos: Dict[str, Tuple[int, int]] = {}
         self.epoch = 0                                      # advanced by every action site: a guard evaluated again after an action is another atom
-        self.seen_in: Dict[str, set] = {}
-        self.ranks = None
+        self.vers: Dict[str, Tuple[int, int]] = {}           # per path: test -> (version, epoch of its last evaluation)
 
     # -- formulas of tests
     def atom(self, text: str, node) -> tuple:
-        if not text.startswith(("EXCEPT(", "KEPT(")):
-            if self.ranks is None:
-                self.seen_in.setdefault(text, set()).add(self.epoch)        # first pass: where is this test evaluated
-            else:
-                eps = self.ranks.get(text, [])
-                k = eps.index(self.epoch) if self.epoch in eps else 0
-                if k:
-                    text = "AGAIN(%s, %d)" % (text, k)       # the same test, evaluated again after the function has acted
+        if not text.startswith(("EXCEPT(", "KEPT(", "WITHIN(", "GUARDED(")) and self._mutable(text):
+            k, last = self.vers.get(text, (0, self.epoch))
+            if last != self.epoch:
+                k += 1                  # the function has acted since this test was last evaluated on this path
+            self.vers[text] = (k, self.epoch)
+            if k:
+                text = "AGAIN(%s, %d)" % (text, k)       # the same test, evaluated again after the function has acted
         self.first_pos.setdefault(text, (getattr(node, "lineno", 0), getattr(node, "col_offset", 0)))
         return ("atom", text)
+
+    @staticmethod
+    def _mutable(text: str) -> bool:
+        """can the truth of this test change while the function runs?  A test of parameters / constants alone (`oid is not None`) cannot: it has no versions."""
+        try:
+            e = ast.parse(text, mode="eval").body
+        except SyntaxError:
+            return True
+        return any(isinstance(x, (ast.Attribute, ast.Subscript, ast.Call)) for x in ast.walk(e))
+
+    def _ctx_text(self, e: ast.AST) -> str:
+        from rules.common import generalise
+        try:
+            return generalise(ast.unparse(self.nm.expr(e, at=e)))
+        except Exception:
+            return ast.unparse(e)
 
     def leaf(self, e: ast.AST, at) -> tuple:
         from sa.canon import canon_text
@@ -272,18 +287,34 @@ class Walker:
     def block(self, stmts, cond) -> tuple:
         """walks the statements under `cond`; returns the condition under which the block completes normally"""
         cur = cond
+        done_shapes: List[set] = []
+        mark = len(self.sites)
         for st in stmts:
-            if cur == FALSE and self.ranks is not None:
-                break               # unreachable in the structured sense (the first pass visits everything: it only records where tests are evaluated)
+            new = {sh for (sh, _s, _c) in self.sites[mark:] if _effect(sh)}
+            if new or done_shapes:
+                for prev in done_shapes:
+                    for a in prev:
+                        for b in new:
+                            if a != b:
+                                self.before.add((a, b))
+                if new:
+                    done_shapes.append(new)
+            mark = len(self.sites)
+            if cur == FALSE:
+                break               # unreachable in the structured sense
             if isinstance(st, ast.If):
                 c = self.formula(st.test, st.test)      # the test is evaluated before what it calls counts as done
                 self.add_sites(st.test, st.test, cur)
-                e0 = self.epoch
+                e0, v0 = self.epoch, dict(self.vers)
                 t_out = self.block(st.body, f_and(cur, c))
-                e1, self.epoch = self.epoch, e0
+                e1, v1 = self.epoch, self.vers
+                self.epoch, self.vers = e0, dict(v0)
                 f_out = self.block(st.orelse, f_and(cur, f_not(c)))
+                e2, v2 = self.epoch, self.vers
                 # the arms are alternatives: both start from the same point; what follows comes after whichever arm can fall through
-                self.epoch = max([e0] + ([e1] if t_out != FALSE else []) + ([self.epoch] if f_out != FALSE else []))
+                live = ([(e1, v1)] if t_out != FALSE else []) + ([(e2, v2)] if f_out != FALSE else [])
+                self.epoch = max([e0] + [e for e, _v in live])
+                self.vers = self._join([v for _e, v in live]) if live else dict(v0)
                 cur = f_or(t_out, f_out)
             elif isinstance(st, (ast.For, ast.AsyncFor)):
                 self.add_sites(st.iter, st.iter, cur)
@@ -299,20 +330,37 @@ class Walker:
             elif isinstance(st, (ast.With, ast.AsyncWith)):
                 for it in st.items:
                     self.add_sites(it.context_expr, it.context_expr, cur)
-                cur = self.block(st.body, cur)
+                # what runs inside `with X:` runs WITHIN(X): a statement moved out of the block (out of the lock, out of the error translation) acts in other states
+                ctxs = [self.atom("WITHIN(%r)" % self._ctx_text(it.context_expr), it.context_expr) for it in st.items]
+                out = self.block(st.body, f_and(cur, *ctxs))
+                for a in ctxs:
+                    out = restrict(out, a[1], True)
+                    self.returned = restrict(self.returned, a[1], True)      # a helper that returned from inside the block has left it
+                cur = out
             elif isinstance(st, ast.Try):
-                b_out = self.block(st.body, cur)
+                # the body of a try runs GUARDED by its handlers: a statement moved out of the try is no longer covered by them
+                types = sorted((ast.unparse(h.type) if h.type is not None else "BaseException") for h in st.handlers)
+                ga = self.atom("GUARDED(%r)" % ", ".join(types), st) if types else None
+                b_out = self.block(st.body, f_and(cur, ga) if ga else cur)
+                if ga:
+                    b_out = restrict(b_out, ga[1], True)
+                    self.returned = restrict(self.returned, ga[1], True)
                 outs = []
-                e1 = ends = self.epoch
+                e1, v1 = self.epoch, dict(self.vers)
+                ends, lives = e1, []
                 for h in st.handlers:
-                    self.epoch = e1
+                    self.epoch, self.vers = e1, dict(v1)
                     a = self.atom("EXCEPT(%r)" % (ast.unparse(h.type) if h.type is not None else "BaseException"), h)
                     outs.append(self.block(h.body, f_and(cur, a)))
                     if outs[-1] != FALSE:
                         ends = max(ends, self.epoch)
-                self.epoch = e1
+                        lives.append(self.vers)
+                self.epoch, self.vers = e1, dict(v1)
                 e_out = self.block(st.orelse, b_out) if st.orelse else b_out
+                if e_out != FALSE:
+                    lives.append(self.vers)
                 self.epoch = max(ends, self.epoch)
+                self.vers = self._join(lives) if lives else dict(v1)
                 done = f_or(e_out, *outs)
                 if st.finalbody:
                     fin = self.block(st.finalbody, cur)
@@ -335,6 +383,12 @@ class Walker:
                 self.add_sites(st, st, cur)
                 if isinstance(st, (ast.Return, ast.Raise, ast.Continue, ast.Break)):
                     cur = FALSE
+        new = {sh for (sh, _s, _c) in self.sites[mark:] if _effect(sh)}
+        for prev in done_shapes:
+            for a in prev:
+                for b in new:
+                    if a != b:
+                        self.before.add((a, b))
         return cur
 
     returns_are_values = False
@@ -375,12 +429,27 @@ class Walker:
             self.add_sites(st, st, done)
         return FALSE if as_return else done
 
+    @staticmethod
+    def _join(vs):
+        out = {}
+        for v in vs:
+            for t, (k, e) in v.items():
+                if t not in out or (k, e) > out[t]:
+                    out[t] = (k, e)
+        return out
+
     def run(self):
-        self.block(self.f.node.body, TRUE)          # first pass: the epochs in which each test is evaluated
-        self.ranks = {t: sorted(e) for t, e in self.seen_in.items()}
-        self.sites, self.epoch, self.first_pos = [], 0, {}
         self.block(self.f.node.body, TRUE)
         return self.sites
+
+
+def _effect(shape: str) -> bool:
+    return not shape.startswith(("return ", "raise ", "yield ", "set ", "filter "))
+
+
+def order_pairs(walker: "Walker"):
+    """pairs (A, B) of action shapes such that A stands before B in some block and B never stands before A: the order the function acts in"""
+    return sorted((a, b) for (a, b) in walker.before if (b, a) not in walker.before)
 
 
 def _symmetric(txt: str) -> str:
